@@ -1,5 +1,6 @@
 //! C01: prime-field operations on the configuration zoo + shipped fields.
-use crate::util::*;
+#![allow(dead_code, deprecated)]
+use arkharness::util::*;
 use ark_ff::{AdditiveGroup, BigInt, BigInteger, Field, Fp, MontBackend, MontConfig, PrimeField, Zero, One};
 use num_bigint::BigUint;
 
@@ -43,19 +44,19 @@ pub fn ops<T: MontConfig<N>, const N: usize>(fl: &str, name: &str, rng: &mut Rng
     // constants as computed by this flavour
     out.line(&format!("C01 consts {}", pfx), &format!("{} {} {:x} {} {}", h(&T::R.0), h(&T::R2.0), T::INV,
         if T::MODULUS_HAS_SPARE_BIT { 1 } else { 0 }, if T::CAN_USE_NO_CARRY_MUL_OPT { 1 } else { 0 }));
-    let p_small = N == 1 && T::MODULUS.0[0] <= 257;
+    let p_small = N == 1 && T::MODULUS.0[0] <= (if thorough { 257 } else { 13 });
     let vals: Vec<[u64; N]> = if p_small {
         (0..T::MODULUS.0[0]).map(|x| { let mut a = [0u64; N]; a[0] = x; a }).collect()   // exhaustive
     } else {
         operands::<T, N>(rng, if thorough { 40 } else { 6 })
     };
-    for a in &vals {
+    for (idx, a) in vals.iter().enumerate() {
         let x = el::<T, N>(a);
         let ah = h(a);
         out.line(&format!("C01 neg {} {}", pfx, ah), &h(&(-x).0 .0));
         out.line(&format!("C01 double {} {}", pfx, ah), &h(&x.double().0 .0));
         out.line(&format!("C01 square {} {}", pfx, ah), &h(&x.square().0 .0));
-        out.line(&format!("C01 inverse {} {}", pfx, ah), &opt(x.inverse()));
+        if thorough || idx < 16 || idx % 5 == 0 { out.line(&format!("C01 inverse {} {}", pfx, ah), &opt(x.inverse())); }
         out.line(&format!("C01 intobigint {} {}", pfx, ah), &h(&x.into_bigint().0));
     }
     // from_bigint / Fp::new on arbitrary N-limb integers (also ≥ p)
@@ -86,7 +87,7 @@ pub fn ops<T: MontConfig<N>, const N: usize>(fl: &str, name: &str, rng: &mut Rng
         out.line(&format!("C01 mul {} {} {}", pfx, xh, yh), &h(&(x * y).0 .0));
     }
     // pow: exponents of various limb lengths
-    let nexp = if thorough { 24 } else { 6 };
+    let nexp = if thorough { 24 } else if N > 6 { 5 } else { 7 };
     for t in 0..nexp {
         let a = vals[rng.below(m as u64) as usize];
         let e: Vec<u64> = match t { 0 => vec![], 1 => vec![0], 2 => vec![1], 3 => vec![0, 0, 1], 4 => T::MODULUS.0.to_vec(),
@@ -123,7 +124,7 @@ macro_rules! zoo_ops {
 }
 
 pub fn run(rng: &mut Rng, thorough: bool, out: &mut Out, only: &Option<String>) {
-    crate::for_each_zoo!(zoo_ops, rng, thorough, out, only);
+    arkharness::for_each_zoo!(zoo_ops, rng, thorough, out, only);
     // shipped fields
     use ark_test_curves::{bls12_381, mnt4_753, secp256k1, bn384_small_two_adicity, ed_on_bls12_381, fp128};
     ops::<bls12_381::FrConfig, 4>("d", "bls12_381::Fr", rng, thorough, out, only);
@@ -136,4 +137,12 @@ pub fn run(rng: &mut Rng, thorough: bool, out: &mut Out, only: &Option<String>) 
     ops::<bn384_small_two_adicity::FrConfig, 6>("d", "bn384::Fr", rng, thorough, out, only);
     ops::<ed_on_bls12_381::FrConfig, 4>("d", "ed_on_bls12_381::Fr", rng, thorough, out, only);
     ops::<fp128::FqConfig, 2>("d", "fp128::Fq", rng, thorough, out, only);
+}
+
+fn main() {
+    let a = arkharness::args();
+    let mut rng = Rng::new(a.seed);
+    let mut out = Out::new();
+    run(&mut rng, a.thorough, &mut out, &a.only);
+    out.flush();
 }
